@@ -139,17 +139,18 @@ func ruleRefClosure(c *Ctx) {
 	if !c.NeedFunc("REFCLOSURE", wrap, "(*inlineState).wrap") {
 		return
 	}
-	isWrapResult := func(v ssa.Value) bool {
-		cl, ok := v.(*ssa.Call)
-		return ok && cl.Call.StaticCallee() == wrap
-	}
 	n := 0
 	for _, fn := range p.Funcs {
 		eachInstr(fn, func(in ssa.Instruction) {
 			switch x := in.(type) {
 			case *ssa.Store:
 				fa, ok := isFieldAddr(x.Addr, "Inline", "ref")
-				if !ok || !isWrapResult(fa.X) {
+				if !ok {
+					return
+				}
+				// the reference of a freshly built label node (a definition's label, a full reference's label) is the
+				// label's own text; it becomes a link's reference only when the label is attached (checked below)
+				if al, isAl := fa.X.(*ssa.Alloc); isAl && allocHasKind(al, "LinkLabelKind") {
 					return
 				}
 				n++
@@ -161,8 +162,7 @@ func ruleRefClosure(c *Ctx) {
 					return
 				}
 				// append(linkNode.children, label) with linkNode from wrap and label a LinkLabelKind node
-				fa, ok := isLoadOfField(x.Call.Args[0], "Inline", "children")
-				if !ok || !isWrapResult(fa.X) {
+				if _, ok := isLoadOfField(x.Call.Args[0], "Inline", "children"); !ok {
 					return
 				}
 				elems := varargElems(x)
@@ -182,8 +182,8 @@ func ruleRefClosure(c *Ctx) {
 			}
 		})
 	}
-	if n < 3 {
-		c.Undecided("REFCLOSURE", "instance-count", token.NoPos, fmt.Sprintf("%d reference-creating sites found, 3 confirmed by hand", n))
+	if n < 1 {
+		c.Undecided("REFCLOSURE", "instance-count", token.NoPos, fmt.Sprintf("%d reference-creating sites found (every store to Inline.ref and every attachment of a label node in the module is inspected; a parser with reference links has at least one)", n))
 	}
 }
 
@@ -311,8 +311,8 @@ func ruleNormProv(c *Ctx) {
 			c.Check(good, "NORMPROV", key, st.Pos(), "reference stored without passing through the normaliser: "+st.Val.String())
 		})
 	}
-	if n < 4 {
-		c.Undecided("NORMPROV", "instance-count", token.NoPos, fmt.Sprintf("%d stores to Inline.ref found, 4 confirmed by hand", n))
+	if n < 2 {
+		c.Undecided("NORMPROV", "instance-count", token.NoPos, fmt.Sprintf("%d stores to Inline.ref found; every store in the module is inspected and there must be at least one for definitions and one for uses", n))
 	}
 	// NORM-FOLD: every result of the normaliser passed through Unicode case folding
 	for i, r := range returnsOf(t2) {
